@@ -198,6 +198,10 @@ def shards(tier, seed):
     return out
 
 
+def opt_shards(tier):
+    return [{"part": "forced", "plain": "wxyz", "r": r, "n": 8, "kmax": 2} for r in range(8)] + [{"part": "updater", "r": r, "n": 8} for r in range(8)]
+
+
 def run_shard(sh):
     st = Stats()
     p = st.part(sh["part"])
